@@ -809,6 +809,11 @@ func typedGetterPaths(c *Ctx, gd *ast.FuncDecl, m *types.Func) string {
 	par := soleParam(c, gd)
 	resT := m.Type().(*types.Signature).Results().At(0).Type()
 	if len(paths) != 2 {
+		// Get's body spelled out instead of called (or Get itself built on a sibling): compare with Get's own paths, continued by
+		// the assertion, in the presentation that follows statically called siblings
+		if composedGetter(c, gd, m) == "" {
+			return ""
+		}
 		return "expected exactly two outcomes (kind matches / does not match)"
 	}
 	for _, p := range paths {
@@ -831,6 +836,91 @@ func typedGetterPaths(c *Ctx, gd *ast.FuncDecl, m *types.Func) string {
 			}
 		} else if p.End != "panic" {
 			return "a non-matching kind does not panic"
+		}
+	}
+	return ""
+}
+
+// composedGetter: "" when the typed getter's outcomes are exactly Get's outcomes continued by the kind assertion: every panic of Get
+// under the same conditions; for every value r Get returns, `r.(T)` ok => return the asserted value, !ok => panic. Both functions
+// are read in the presentation that follows statically called siblings, so "calls Get" and "contains Get's body" are one thing.
+func composedGetter(c *Ctx, gd *ast.FuncDecl, m *types.Func) string {
+	recvName := ""
+	if gd.Recv != nil && len(gd.Recv.List) == 1 {
+		recvName = declName(gd)
+		if i := strings.LastIndex(recvName, "."); i > 0 {
+			recvName = recvName[:i]
+		}
+	}
+	get := c.Decl(recvName + ".Get")
+	if get == nil {
+		return "no Get to compare with"
+	}
+	conf := func(x *SX) { x.InlineStaticSelf = true }
+	run := func(fd *ast.FuncDecl) ([]*Path, string) {
+		x := c.NewSX()
+		conf(x)
+		ps := x.Run(fd)
+		for _, p := range ps {
+			if p.Why != "" {
+				return nil, p.Why
+			}
+		}
+		return ps, ""
+	}
+	pGet, why := run(get)
+	if why != "" {
+		return why
+	}
+	pX, why := run(gd)
+	if why != "" {
+		return why
+	}
+	resT := m.Type().(*types.Signature).Results().At(0).Type()
+	sig := func(p *Path, fd *ast.FuncDecl, withVals bool) string {
+		q := *p
+		if !withVals {
+			q.Vals = nil
+		}
+		return c.pathSignature(&q, nil, c.recvObj(fd), soleParam(c, fd))
+	}
+	want := map[string]int{}
+	for _, p := range pGet {
+		if len(p.Effects()) != 0 {
+			return "Get has effects"
+		}
+		switch p.End {
+		case "panic":
+			want[sig(p, get, false)]++
+		case "return":
+			if len(p.Vals) != 1 {
+				return "Get returns no single value"
+			}
+			as := TAssert{X: p.Vals[0], To: resT}
+			okP, noP := clonePath(p), clonePath(p)
+			okP.Steps = append(okP.Steps, Step{Kind: "cond", Cond: Cond{T: TProj{as, 1}, Truth: true}})
+			okP.Vals = []Term{TProj{as, 0}}
+			noP.Steps = append(noP.Steps, Step{Kind: "cond", Cond: Cond{T: TProj{as, 1}, Truth: false}})
+			noP.End, noP.Vals = "panic", nil
+			want[sig(okP, get, true)]++
+			want[sig(noP, get, false)]++
+		default:
+			return "Get ends in " + p.End
+		}
+	}
+	for _, p := range pX {
+		if len(p.Effects()) != 0 {
+			return "the getter has effects"
+		}
+		s := sig(p, gd, p.End == "return")
+		if want[s] == 0 {
+			return "an outcome that is not Get's continued by the assertion: " + s
+		}
+		want[s]--
+	}
+	for s, n := range want {
+		if n != 0 {
+			return "an outcome of Get (continued by the assertion) is missing: " + s
 		}
 	}
 	return ""
